@@ -70,3 +70,54 @@ Example C18_chain_nonvacuous :
 Proof. vm_compute. repeat split; reflexivity. Qed.
 
 Print Assumptions C18_chain_trace.
+
+(* per-hop wire clause over the composition *)
+From TarpcV Require ChainWire.
+(* on the wire, on the COMPOSITION (coq/Chain.v), for EVERY depth and EVERY op list: every
+   request a RequestDispatch of ANY node writes into its link (as the tap on the client end of
+   the transport sees it, successful writes only) carries
+     - a span id of its own, drawn for this request (named after its request id), and
+     - the trace number (2*trace_id + sampled) and the deadline of a head call with its body;
+   every cancellation written carries exactly the trace number and the span id of a request
+   with the same id written earlier on the same link.  Per hop this is the content of
+   C18_client_monitor; across hops it rests on the context invariant of C18_chain_trace.
+   The hypothesis chain_no_wrap of the pinned statement is not used (ChainWire.chain_wire_all
+   is the statement without it). *)
+Theorem C18_chain_wire : forall (d : nat) (ops : list Chain.cop),
+  ChainSpec.chain_no_wrap ops -> Chain.c18w_ok d ops (fst (Chain.run d ops)) = true.
+Proof. exact ChainWire.chain_wire. Qed.
+
+Theorem C18_chain_wire_all : forall (d : nat) (ops : list Chain.cop),
+  Chain.c18w_ok d ops (fst (Chain.run d ops)) = true.
+Proof. exact ChainWire.chain_wire_all. Qed.
+
+(* non-vacuity: depth 2, two head calls, the first one abandoned.  Both requests cross both
+   links with span id = request id and the head's trace number and deadline; the cancellation
+   crosses both links with the trace number and span id of request 0.  The monitor rejects a
+   request with a foreign span id, a request with another trace number, a request with another
+   deadline, a cancellation for a request never written on that link, and a cancellation that
+   changes the span id. *)
+Example C18_chain_wire_nonvacuous :
+  let ops := [Chain.HCall 1000 7 true 5; Chain.HCall 500 9 false 6; Chain.SettleAll;
+              Chain.HDrop 0; Chain.SettleAll] in
+  map (filter (fun e => match e with Chain.KWire _ _ => true | _ => false end))
+      (fst (Chain.run 2 ops)) =
+    [[]; [];
+     [Chain.KWire 0 [Chain.WReq 0 1000 15 0 5; Chain.WReq 1 500 18 1 6];
+      Chain.KWire 1 [Chain.WReq 0 1000 15 0 5]; Chain.KWire 1 [Chain.WReq 1 500 18 1 6]];
+     [];
+     [Chain.KWire 0 [Chain.WCancel 0 15 0]; Chain.KWire 1 [Chain.WCancel 0 15 0]]]
+  /\ Chain.c18w_ok 2 ops (fst (Chain.run 2 ops)) = true
+  /\ Chain.c18w_ok 2 ops [[]; []; [Chain.KWire 0 [Chain.WReq 0 1000 15 1 5]]; []; []] = false
+  /\ Chain.c18w_ok 2 ops [[]; []; [Chain.KWire 0 [Chain.WReq 0 1000 14 0 5]]; []; []] = false
+  /\ Chain.c18w_ok 2 ops [[]; []; [Chain.KWire 0 [Chain.WReq 0 999 15 0 5]]; []; []] = false
+  /\ Chain.c18w_ok 2 ops [[]; []; [Chain.KWire 0 [Chain.WReq 0 1000 15 0 5]]; [];
+                           [Chain.KWire 1 [Chain.WCancel 0 15 0]]] = false
+  /\ Chain.c18w_ok 2 ops [[]; []; [Chain.KWire 0 [Chain.WReq 0 1000 15 0 5]]; [];
+                           [Chain.KWire 0 [Chain.WCancel 0 15 7]]] = false
+  /\ Chain.c18w_ok 2 ops [[]; []; [Chain.KWire 0 [Chain.WReq 0 1000 15 0 5]]; [];
+                           [Chain.KWire 0 [Chain.WCancel 0 15 0]]] = true.
+Proof. vm_compute. repeat split; reflexivity. Qed.
+
+Print Assumptions C18_chain_wire.
+Print Assumptions C18_chain_wire_all.
